@@ -553,7 +553,9 @@ func c19Oracle(c *C19Case) string {
 	pm := Safely(func() {
 		b = Build(d)
 		setupErr = b.Err
-		if c.ViaNew && len(d.Root.G.Groups) > 0 {
+		// (with NewParser the declaration is scanned before a custom namespace
+		// delimiter can be set, so the comparison only applies to the default one)
+		if c.ViaNew && len(d.Root.G.Groups) > 0 && d.NsDelim == nil {
 			// the NewParser path reports the declaration error on first use
 			bl := &builder{b: &Built{D: d, OptVal: map[string]reflect.Value{}, PlainVal: map[string]reflect.Value{}, PlainIni: map[string]interface{}{}, PosVal: map[string]reflect.Value{}, Cmds: map[string]*flags.Command{}}, d: d}
 			g0 := &d.Root.G.Groups[0]
